@@ -199,6 +199,11 @@ def write_evidence(
     (EVIDENCE / f"{prop}.json").write_text(json.dumps(ev, indent=1, default=str))
 
 
+def applies(v: dict, prop: str) -> bool:
+    """A violation record names one property ('property') or several ('properties')."""
+    return v.get("property") == prop or prop in v.get("properties", ())
+
+
 def finish(
     prop: str,
     tier: str,
@@ -211,7 +216,7 @@ def finish(
 ) -> int:
     """Print verdict lines, write evidence, return exit code."""
     known_lines = known_lines or []
-    viols = [v for p in parts for v in p.violations if v.get("property") == prop]
+    viols = [v for p in parts for v in p.violations if applies(v, prop)]
     for line in known_lines:
         print(line)
     n_drift = sum(p.n_drift for p in parts)
@@ -225,7 +230,7 @@ def finish(
         print(
             f"[{prop}] part={p.name} cfg={p.cfg} tlc_states={p.states} replayed={p.replayed} "
             f"tlc_validated_events={p.traces} nontrivial={p.nontrivial} drift={p.n_drift} "
-            f"violations={sum(1 for v in p.violations if v.get('property') == prop)} wall={p.wall_s:.1f}s"
+            f"violations={sum(1 for v in p.violations if applies(v, prop))} wall={p.wall_s:.1f}s"
         )
     if viols:
         for path in paths[:10]:
